@@ -93,6 +93,22 @@ class Ctx:
         return self.heap(old)[om.oid]["cols"][field](k)
 
 
+class _Guarded:
+    """iterates a clause list; a clause list that cannot even be built on this path (a field the contract says is a float
+    holds something else, a record is missing) is a false postcondition, not a crash of the checker"""
+
+    def __init__(self, I, prefix, fn):
+        self.I, self.prefix, self.fn = I, prefix, fn
+
+    def __iter__(self):
+        try:
+            for cl in self.fn():
+                yield cl
+        except (TypeError, KeyError, AttributeError, IndexError) as ex:
+            yield Cl("post_state_has_the_shape_the_contract_states", FALSE)
+            self.I.log.append("clause construction failed under %s: %s: %s" % (self.prefix, type(ex).__name__, ex))
+
+
 def prove_clause(I, prefix, cl, kind="vc"):
     """emit the obligations of one clause under the current path; afterwards it is assumed"""
     known = getattr(cl, "known", None)
@@ -462,7 +478,7 @@ def verify(con, registry, opts=None, initial=None):
             c.exc = ex
         pfx = con.qual + "::"
         c.new = I.snapshot()
-        for cl in con.hints(c):
+        for cl in _Guarded(I, pfx + "lemma::", lambda: con.hints(c)):
             prove_clause(I, pfx + "lemma::", cl)
         specs = raise_specs(exc_specs)
         if outcome == "return":
@@ -472,7 +488,7 @@ def verify(con, registry, opts=None, initial=None):
                 tag = typ if len([1 for t, _ in specs if t == typ]) == 1 else "%s#%d" % (typ, i)
                 I.oblige(pfx + "raises::%s::complete" % tag, z3.Not(_when(spec)),
                          detail="no normally-returning path satisfies the raise condition")
-            for cl in con.ensures(c):
+            for cl in _Guarded(I, pfx + "ensures::", lambda: con.ensures(c)):
                 prove_clause(I, pfx + "ensures::", cl)
             allowed = modset(con.modifies(c))
             check_frame(I, pfx, allowed)
@@ -503,7 +519,7 @@ def verify(con, registry, opts=None, initial=None):
                 for i, sp in (mine if ob.verdict == "unsat" else []):
                     tag = typ if len(mine) == 1 else "%s#%d" % (typ, i)
                     if len(mine) == 1 or I.branch(_when(sp)):
-                        for cl in sp.get("post", []):
+                        for cl in _Guarded(I, pfx + "raises::%s::post::" % tag, lambda sp=sp: sp.get("post", [])):
                             prove_clause(I, pfx + "raises::%s::post::" % tag, cl)
                         check_frame(I, pfx + "raises::%s::" % tag, modset(sp.get("modifies", [])))
                         break
